@@ -104,3 +104,30 @@ Example T16_examples :
   varint_encode32 (2 ^ 32 - 1) = [255; 255; 255; 255; 15] /\
   fixed_encode32 MTBL_MAGIC = [76; 66; 84; 77].
 Proof. vm_compute. repeat split. Qed.
+
+(* T16f: the encodings are injective and prefix-free, for all values and whatever follows:
+   two concatenations that start with encoded integers and are equal as byte strings
+   start with the same integer and continue with the same bytes.  This is what lets the
+   block / index / trailer formats concatenate fields without separators (an immediate
+   consequence of the round trips T16a/b/d, stated because every parser relies on it). *)
+Theorem T16f_prefix_free :
+  (forall v v' r r', v < 2 ^ 64 -> v' < 2 ^ 64 ->
+     varint_encode64 v ++ r = varint_encode64 v' ++ r' -> v = v' /\ r = r') /\
+  (forall v v' r r', v < 2 ^ 32 -> v' < 2 ^ 32 ->
+     varint_encode32 v ++ r = varint_encode32 v' ++ r' -> v = v' /\ r = r') /\
+  (forall v v' r r', v < 2 ^ 32 -> v' < 2 ^ 32 ->
+     fixed_encode32 v ++ r = fixed_encode32 v' ++ r' -> v = v' /\ r = r') /\
+  (forall v v' r r', v < 2 ^ 64 -> v' < 2 ^ 64 ->
+     fixed_encode64 v ++ r = fixed_encode64 v' ++ r' -> v = v' /\ r = r').
+Proof.
+  split; [|split; [|split]]; intros v v' r r' Hv Hv' E.
+  - pose proof (T16b_varint64_roundtrip v r Hv) as D. rewrite E, (T16b_varint64_roundtrip v' r' Hv') in D.
+    assert (v' = v) by congruence. subst v'. split; [reflexivity|]. eapply app_inv_head, E.
+  - pose proof (T16a_varint32_roundtrip v r Hv) as D. rewrite E, (T16a_varint32_roundtrip v' r' Hv') in D.
+    assert (v' = v) by congruence. subst v'. split; [reflexivity|]. eapply app_inv_head, E.
+  - pose proof (fixed32_roundtrip v r Hv) as D. rewrite E, (fixed32_roundtrip v' r' Hv') in D.
+    assert (v' = v) by congruence. subst v'. split; [reflexivity|]. eapply app_inv_head, E.
+  - pose proof (fixed64_roundtrip v r Hv) as D. rewrite E, (fixed64_roundtrip v' r' Hv') in D.
+    assert (v' = v) by congruence. subst v'. split; [reflexivity|]. eapply app_inv_head, E.
+Qed.
+Print Assumptions T16f_prefix_free.
